@@ -12,16 +12,27 @@ LEVEL = "proof"
 RULE = ("rooted graphs (node = system/name/version-type/version + error list; edge = from,to,requirement,dependency type) "
         "with renumberings of the non-root nodes and shuffles of edges and per-node errors. Random tier: graphs of 1..40 "
         "nodes over small alphabets (duplicate versions common, one family with a duplicate of the root), parallel typed "
-        "edges, self loops, cycles, node errors; 4 relabelings each (one in four done by the harness/model relabel). "
-        "Exhaustive tier (thorough), labels {a,b} x {1,2}, requirement empty, every labeling of every node: "
+        "edges, self loops, cycles, node errors; 4 relabelings each (one in four done by the harness/model relabel). One "
+        "graph in four is drawn over all three systems (npm, Maven, PyPI) with node names AND requirement names of node "
+        "errors from a family of strings that coincide under the usual name normalisations (case, - _ ., runs and "
+        "leading/trailing separators, npm scopes, Maven group:artifact), the errors of a node differing only in such names. "
+        "On the Go answers of every graph the hypothesis of the theorems is checked as well: VersionKey.Compare and "
+        "NodeError.Compare return 0 only for identical values, are reflexive and sign-antisymmetric (all colliding pairs "
+        "and all error pairs of a node, plus random pairs). Errors reach a node through AddError (even nodes) or by filling "
+        "the exported slice (odd nodes). "
+        "Exhaustive tier (thorough), requirement empty, every labeling of every node; labels {a,b} x {1,2} in E1-E4: "
         "E1 n=1,2,3 with every subset of the n*n ordered pairs (self loops included); "
         "E2 n=4 with every subset of the 12 ordered pairs without self loops; "
         "E3 n=5 where every non-root node has exactly one incoming edge from any other node (256 shapes); "
         "E4 n=3 where every ordered pair without self loop carries no edge, a regular edge, a dev edge, or both (parallel "
-        "typed edges). Each space is closed under renumbering; ALL (n-1)! renumberings are covered by requiring the same "
-        "output for all members of an isomorphism class (1 605 896 graphs, 339 608 classes), and the output must be a member "
-        "of the class of its input (exact preservation test). A case is non-trivial when the graph has two equal nodes and "
-        "canonicalisation succeeds (breadth-first path), or has >= 3 nodes and >= 2 edges.")
+        "typed edges); E6 n=3 with labels {npm,maven,pypi} x {a-b,a_b,A-B} and every subset of the 6 ordered pairs without "
+        "self loops. Each space is closed under renumbering; ALL (n-1)! renumberings are covered by requiring the same "
+        "output for all members of an isomorphism class (1 652 552 graphs, 363 260 classes), and the output must be a member "
+        "of the class of its input (exact preservation test). E5: error alphabet {npm,maven,pypi} x {a-b,a_b,A-B} with one "
+        "version, type and text; the one-node graph with every sequence of at most 3 errors, and a root with two children "
+        "of one version carrying every pair of sequences of at most 2 errors (9 101 graphs, 1 760 classes): one output per "
+        "class. A case is non-trivial when the graph has two equal nodes and canonicalisation succeeds (breadth-first path), "
+        "or has >= 3 nodes and >= 2 edges.")
 TRUSTED = [
     "Coq 8.16.1 kernel; vm_compute for the refuted witness",
     "translator harness/go/cmd/gotables/graph.go (insertion-sort cutoff of package sort; whether Canon consults the Dupe flag set inside Less)",
@@ -51,7 +62,7 @@ KF = "F-C13-1"
 # node = [sys, name, vtype, version, errs]; err = [sys, name, vtype, version, text]
 # edge = [from, to, req, pairs]; graph = (nodes, edges, error)
 
-NPM = 1
+NPM = 3
 TYPES = [[], [[-1, ""]], [[-2, ""]], [[-1, ""], [-2, ""]], [[3, "peer"]], [[3, "x"]], [[3, "x"], [-1, ""]],
          [[5, "k"]], [[1, "a"], [3, "b"]],
          # types with several valued attributes that agree on the last one and differ earlier
@@ -135,8 +146,59 @@ def parse_out(line):
 
 # ----------------------------------------------------------------------------- generators
 
+# The three systems resolve knows (the System is part of a VersionKey); the numbers are read from the Go side at run time.
+SYSTEMS = {"npm": 3, "maven": 6, "pypi": 7}
+
+# Names that are distinct strings but coincide under the usual normalisations of package names (case folding, '-' vs '_'
+# vs '.', runs of separators, leading/trailing separators, npm scopes, Maven group:artifact). Canon needs an order that
+# SEPARATES them: VersionKey.Compare is byte-wise.
+FAMILIES = [
+    ["typing-extensions", "Typing_Extensions", "typing_extensions", "typing.extensions", "typing--extensions",
+     "typing-_.extensions", "TYPING-EXTENSIONS", "-typing-extensions", "typing-extensions-", "typingextensions"],
+    ["@scope/pkg", "@Scope/pkg", "@scope/Pkg", "@SCOPE/PKG", "@scope/pkg-", "@scope//pkg", "@scope/p.kg", "scope/pkg"],
+    ["org.apache:commons-io", "org.apache:commons_io", "Org.Apache:commons-io", "org.apache:commons.io",
+     "org-apache:commons-io", "org.apache::commons-io", "org.apache:Commons-IO", "org.apache:commons--io"],
+    ["a-b", "a_b", "a.b", "A-B", "a--b", "ab", "a-b.", ".a-b", "a-B", "a_.b"],
+]
+
+
 def gen_versions(rng, n, names, vers):
     return [(rng.choice(names), rng.choice(vers)) for _ in range(n)]
+
+
+class Collide:
+    """node and error alphabet over all three systems with names from one colliding family"""
+
+    def __init__(self, rng):
+        self.fam = rng.choice(FAMILIES)
+        if rng.random() < 0.5:
+            self.fam = rng.sample(self.fam, 4)
+        r = rng.random()
+        allsys = list(SYSTEMS.values())
+        self.sys = allsys if r < 0.4 else [rng.choice(allsys)] if r < 0.9 else allsys + [0]
+        self.vers = rng.choice([["1"], ["1", "2"]])
+        self.p_err = rng.choice([0.0, 0.3, 0.6])
+        self.texts = rng.choice([["not found"], ["not found", "could not find"]])
+
+    def errors(self, rng):
+        errs = []
+        if rng.random() < self.p_err:
+            for _ in range(rng.randrange(2, 5)):
+                # same text, version and type: only the spelling of the name (or the system) tells them apart
+                errs.append(mk_err(rng.choice(self.fam), rng.choice(["^1", "^1", "2"]), rng.choice(self.texts),
+                                   sys=rng.choice(self.sys), vt=2))
+        return errs
+
+    def node(self, rng):
+        return mk_node(rng.choice(self.fam), rng.choice(self.vers), self.errors(rng), sys=rng.choice(self.sys))
+
+
+class Plain:
+    def __init__(self, names, vers, p_err):
+        self.names, self.vers, self.p_err = names, vers, p_err
+
+    def node(self, rng):
+        return mk_node(rng.choice(self.names), rng.choice(self.vers), gen_errors(rng, self.p_err))
 
 
 def gen_errors(rng, p):
@@ -147,9 +209,10 @@ def gen_errors(rng, p):
     return errs
 
 
-def gen_random(rng, n, names, vers, p_err, density, p_par, p_self):
+def gen_random(rng, n, names, vers, p_err, density, p_par, p_self, alpha=None):
     """arbitrary random graph: duplicates wherever the alphabet makes them"""
-    nodes = [mk_node(nm, v, gen_errors(rng, p_err)) for nm, v in gen_versions(rng, n, names, vers)]
+    alpha = alpha or Plain(names, vers, p_err)
+    nodes = [alpha.node(rng) for _ in range(n)]
     edges = []
     m = int(density * n) + rng.randrange(0, 3)
     for _ in range(m):
@@ -162,17 +225,18 @@ def gen_random(rng, n, names, vers, p_err, density, p_par, p_self):
     return (nodes, edges, rng.choice(["", "", "boom"]))
 
 
-def gen_npm_like(rng, n, names, vers, p_err, p_extra, root_dupe):
+def gen_npm_like(rng, n, names, vers, p_err, p_extra, root_dupe, alpha=None):
     """connected graph in which the children of a node have pairwise distinct versions (as in an npm tree),
     while the same version may occur under several parents: the breadth-first labelling succeeds."""
-    nodes = [mk_node(rng.choice(names), rng.choice(vers), gen_errors(rng, p_err))]
+    alpha = alpha or Plain(names, vers, p_err)
+    nodes = [alpha.node(rng)]
     edges = []
     kids = {0: set()}
     tries = 0
     while len(nodes) < n and tries < 20 * n:
         tries += 1
         parent = rng.randrange(len(nodes))
-        nd = mk_node(rng.choice(names), rng.choice(vers), gen_errors(rng, p_err))
+        nd = alpha.node(rng)
         k = node_key(nd)
         if k in kids[parent]:
             continue
@@ -198,7 +262,7 @@ def gen_distinct(rng, n, p_err, density):
     """all versions distinct: the plain sort decides"""
     pool = [(chr(97 + i % 26) * (1 + i // 26), v) for i in range(60) for v in ("1", "2", "10")]
     rng.shuffle(pool)
-    nodes = [mk_node(nm, v, gen_errors(rng, p_err), sys=rng.choice([1, 1, 1, 2, 3]), vt=rng.choice([1, 1, 2]))
+    nodes = [mk_node(nm, v, gen_errors(rng, p_err), sys=rng.choice([1, 1, 1, 2, 3, 6, 7]), vt=rng.choice([1, 1, 2]))
              for nm, v in pool[:n]]
     edges = []
     for _ in range(int(density * n) + 1):
@@ -212,6 +276,14 @@ def gen_distinct(rng, n, p_err, density):
 
 
 def gen_graph(rng):
+    if rng.random() < 0.25:
+        # all three systems, names that collide under normalisation, errors that differ only in such names
+        alpha = Collide(rng)
+        q = rng.random()
+        n = rng.choice([1, 1, 2, 2, 3, 4, 5, 6, 8, 12, 14, 25])
+        if q < 0.6:
+            return "collide_tree", gen_npm_like(rng, n, None, None, 0, rng.choice([0, 0.2, 0.5]), False, alpha)
+        return "collide_random", gen_random(rng, n, None, None, 0, rng.choice([0.5, 1.0, 1.5]), 0.2, 0.3, alpha)
     r = rng.random()
     if r < 0.15:
         n = rng.choice([1, 2, 3, 4, 5, 6, 8, 12, 13, 20, 40])
@@ -440,6 +512,7 @@ def random_tier(ctx, orc, fixed, cutoff, n_graphs, k):
         metas.append((kind, g, perms, len(flat), len(variants)))
         flat.extend(variants)
     impl, _ = corr_canon(ctx, flat, fixed, cutoff, "canon_graph")
+    separation_oracle(ctx, [m[1] for m in metas])
 
     # idempotence: every distinct successful output is canonicalised again
     idem_in = sorted(set(out_graph_sx(o) for o in impl if o.startswith('("ok"')))
@@ -490,12 +563,88 @@ def random_tier(ctx, orc, fixed, cutoff, n_graphs, k):
             ctx.sample({"kind": "canon_graph", "case": g_sx(g)[:500], "impl": outs[0][:500]})
 
 
+def sgn_laws(ctx, kind, what, pairs, fwd, bwd):
+    """the hypothesis of the theorems, on the Go answers: the order separates distinct elements
+    (Compare = 0 only for identical values), is reflexive and sign-antisymmetric"""
+    for (a, b), x, y in zip(pairs, fwd, bwd):
+        try:
+            cx, cy = int(x), int(y)
+        except ValueError:
+            ctx.violation("%s does not return" % what, {"pair": sx([a, b]), "replay_kind": kind}, observed=x)
+            continue
+        if a == b and cx != 0:
+            ctx.violation("%s is not reflexive" % what, {"pair": sx([a, b]), "replay_kind": kind}, observed=x, required="0")
+        elif a != b and cx == 0:
+            ctx.violation("%s returns 0 for two distinct values: the order Canon sorts by does not separate them, "
+                          "so their relative order in the canonical form is the input order" % what,
+                          {"pair": sx([a, b]), "replay_kind": kind}, observed=x, required="non-zero")
+        elif cx != -cy:
+            ctx.violation("%s is not sign-antisymmetric" % what, {"pair": sx([a, b]), "replay_kind": kind},
+                          observed=[x, y], required="opposite signs")
+
+
+def squash(name):
+    return "".join(c for c in name.lower() if c.isalnum())
+
+
+def separation_pairs(rng, g, max_random=6):
+    """pairs of version keys and of node errors of one graph on which the separation hypothesis is checked:
+    every pair whose names coincide after case folding and removal of separators, and a few random ones"""
+    nodes = g[0]
+    keys = sorted(set((n[0], n[1], n[2], n[3]) for n in nodes) | set((e[0], e[1], e[2], e[3]) for n in nodes for e in n[4]))
+    kp = []
+    by = {}
+    for k in keys:
+        by.setdefault((squash(k[1]), k[2], k[3]), []).append(k)
+    for grp in by.values():
+        for i in range(len(grp)):
+            for j in range(i + 1, len(grp)):
+                kp.append((grp[i], grp[j]))
+    kp = kp[:20]
+    for _ in range(min(max_random, len(keys))):
+        kp.append((rng.choice(keys), rng.choice(keys)))
+    ep = []
+    for n in nodes:
+        errs = [tuple(e) for e in n[4]]
+        for i in range(len(errs)):
+            for j in range(i + 1, len(errs)):
+                ep.append((errs[i], errs[j]))
+    return kp, ep[:20]
+
+
+def separation_oracle(ctx, graphs):
+    rng = ctx.rng
+    kps, eps = [], []
+    for g in graphs:
+        kp, ep = separation_pairs(rng, g)
+        kps += kp
+        eps += ep
+    kps = sorted(set(kps))
+    eps = sorted(set(eps))
+    as_node = lambda k: list(k) + [[]]
+    if kps:
+        fwd = ctx.impl("node_compare", [sx([as_node(a), as_node(b)]) for a, b in kps])
+        bwd = ctx.impl("node_compare", [sx([as_node(b), as_node(a)]) for a, b in kps])
+        sgn_laws(ctx, "node_compare", "VersionKey.Compare (through Node.Compare)",
+                 [(as_node(a), as_node(b)) for a, b in kps], fwd, bwd)
+    if eps:
+        fwd = ctx.impl("nodeerr_compare", [sx([list(a), list(b)]) for a, b in eps])
+        bwd = ctx.impl("nodeerr_compare", [sx([list(b), list(a)]) for a, b in eps])
+        sgn_laws(ctx, "nodeerr_compare", "NodeError.Compare", [(list(a), list(b)) for a, b in eps], fwd, bwd)
+    ctx.count("separation:key_pairs", len(kps))
+    ctx.count("separation:error_pairs", len(eps))
+
+
 def comparator_tier(ctx):
     rng = ctx.rng
     n = ctx.scale(1500, 20000)
+    allsys = list(SYSTEMS.values())
 
     def vk():
-        return [rng.choice([0, 1, 1, 2, 3, 255]), rng.choice(["", "a", "b", "ab", "a ", "B"]), rng.choice([0, 1, 2]),
+        if rng.random() < 0.5:
+            # one system, one family: only the spelling of the name differs
+            return [rng.choice(allsys), rng.choice(vk.fam), rng.choice([1, 2]), rng.choice(["1", "^1"])]
+        return [rng.choice([0, 1, 1, 2, 3, 255] + allsys), rng.choice(["", "a", "b", "ab", "a ", "B"]), rng.choice([0, 1, 2]),
                 rng.choice(["", "1", "2", "10", "1.0"])]
 
     def ne():
@@ -503,8 +652,25 @@ def comparator_tier(ctx):
 
     def nd():
         return vk() + [[ne() for _ in range(rng.randrange(0, 3))]]
-    ctx.correspond("nodeerr_compare", [sx([ne(), ne()]) for _ in range(n)])
-    ctx.correspond("node_compare", [sx([nd(), nd()]) for _ in range(n)])
+
+    def pairs(gen):
+        out = []
+        for _ in range(n):
+            vk.fam = rng.choice(FAMILIES)
+            a, b = gen(), gen()
+            if rng.random() < 0.1:
+                b = json.loads(json.dumps(a))
+            out.append((a, b))
+        return out
+    ps = pairs(ne)
+    fwd, _ = ctx.correspond("nodeerr_compare", [sx([a, b]) for a, b in ps])
+    bwd = ctx.impl("nodeerr_compare", [sx([b, a]) for a, b in ps])
+    sgn_laws(ctx, "nodeerr_compare", "NodeError.Compare", ps, fwd, bwd)
+    ps = pairs(lambda: vk() + [[]])
+    fwd, _ = ctx.correspond("node_compare", [sx([a, b]) for a, b in ps], label="node_compare(keys)")
+    bwd = ctx.impl("node_compare", [sx([b, a]) for a, b in ps])
+    sgn_laws(ctx, "node_compare", "VersionKey.Compare (through Node.Compare)", ps, fwd, bwd)
+    ctx.correspond("node_compare", [sx([a, b]) for a, b in pairs(nd)])
     ts = TYPES + [[[-4, ""]], [[3, ""]], [[3, "peer"], [3, "x"]], [[63, "z"]], [[0, "z"]], [[-128, ""]]]
     ctx.correspond("deptype_compare", [sx([rng.choice(ts), rng.choice(ts)]) for _ in range(n)])
     # constructors: ids out of range are refused by both sides
@@ -574,6 +740,17 @@ def shrink_invariance(ctx, g, perm, budget=400):
 def finish_violations(ctx):
     """smallest failing inputs first; the smallest invariance failure is reduced further"""
     ctx.violations.sort(key=lambda v: len(json.dumps(v["input"], default=str)))
+    # the replay keeps the first records only: lead with the smallest instance of every kind of failure,
+    # graphs (failures of the property itself) before comparator pairs (failures of its hypothesis)
+    heads, rest, seen = [], [], set()
+    for v in ctx.violations:
+        if v["what"] not in seen:
+            seen.add(v["what"])
+            heads.append(v)
+        else:
+            rest.append(v)
+    heads.sort(key=lambda v: 0 if isinstance(v["input"], dict) and "graph" in v["input"] else 1)
+    ctx.violations[:] = heads + rest
     for v in ctx.violations:
         inp = v["input"]
         if isinstance(inp, dict) and inp.get("perm") and v["what"].startswith("canonical form depends"):
@@ -596,6 +773,9 @@ def run(ctx):
 
 
 def run_checks(ctx):
+    nums = fast_parse(ctx.impl("resolve_systems", ["0"])[0])
+    SYSTEMS.update({"npm": nums[0], "maven": nums[1], "pypi": nums[2]})
+    ctx.extra["systems"] = dict(SYSTEMS)
     variant = ctx.model("canon_variant", ["0"])[0]
     fixed = (variant == "1")
     cutoff = 12
@@ -646,7 +826,8 @@ def oracle_only(ctx):
 
 # ----------------------------------------------------------------------------- exhaustive small scope (thorough tier)
 
-EX_LABELS = [("a", "1"), ("a", "2"), ("b", "1"), ("b", "2")]
+EX_LABELS = [(1, "a", "1"), (1, "a", "2"), (1, "b", "1"), (1, "b", "2")]
+EX_NAMES = ["a-b", "a_b", "A-B"]
 T_REG, T_DEV = [], [[-1, ""]]
 
 
@@ -680,6 +861,15 @@ def ex_spaces():
                 es.append((f, t, "", T_DEV))
         cfgs.append(es)
     spaces.append(("E4:n=3 every ordered pair without self loops carries no edge, a regular edge, a dev edge, or both", 3, cfgs))
+    spaces = [(nm, n, EX_LABELS, c) for nm, n, c in spaces]
+    # names that collide under normalisation, in each of the three systems
+    labels = [(sy, nm, "1") for sy in sorted(SYSTEMS.values()) for nm in EX_NAMES]
+    pairs = [(f, t) for f in range(3) for t in range(3) if f != t]
+    cfgs = []
+    for mask in range(1 << 6):
+        cfgs.append([(f, t, "", T_REG) for i, (f, t) in enumerate(pairs) if mask >> i & 1])
+    spaces.append(("E6:n=3 labels {npm,maven,pypi} x {a-b,a_b,A-B} @1, all subsets of the 6 ordered pairs without self loops",
+                   3, labels, cfgs))
     return spaces
 
 
@@ -687,13 +877,44 @@ def ex_norm(es):
     return tuple(sorted((f, t, r, type_key(ty)) for f, t, r, ty in es))
 
 
+def exhaustive_errors(ctx, orc):
+    """E5: per-node errors. Error alphabet {npm,maven,pypi} x {a-b,a_b,A-B}, same requirement version, type and text (9 errors).
+    (a) the one-node graph with every sequence of at most 3 errors; (b) root -> two nodes of the same version, each with every
+    sequence of at most 2 errors. All orders of the error slices (and in (b) both numberings) must give one output."""
+    errs = [[sy, nm, 2, "^1", "not found"] for sy in sorted(SYSTEMS.values()) for nm in EX_NAMES]
+    seqs = lambda m: [list(t) for k in range(m + 1) for t in itertools.product(range(len(errs)), repeat=k)]
+    groups = {}
+    cases = []
+    for sq in seqs(3):
+        g = ([mk_node("r", "1", [errs[i] for i in sq])], [], "")
+        cases.append((("a", tuple(sorted(sq))), g))
+    s2 = seqs(2)
+    for s1 in s2:
+        for sq in s2:
+            g = ([mk_node("r", "1"), mk_node("c", "1", [errs[i] for i in s1]), mk_node("c", "1", [errs[i] for i in sq])],
+                 [[0, 1, "", []], [0, 2, "", []]], "")
+            cases.append((("b", tuple(sorted([tuple(sorted(s1)), tuple(sorted(sq))]))), g))
+    outs = ctx.correspond("canon_graph", [g_sx(g) for _, g in cases], label="canon_graph(exhaustive errors)")[0]
+    for (key, g), o in zip(cases, outs):
+        if key not in groups:
+            groups[key] = (g, o)
+        elif groups[key][1] != o:
+            orc.classify("canonical form depends on the order of per-node errors / numbering (exhaustive small scope E5)",
+                         groups[key][0], None, observed=o, required=groups[key][1], root_dupe=False, variant=g_sx(g))
+        if o.startswith('("ok"'):
+            orc.preserved(g, o)
+    ctx.count("exhaustive:E5_error_sequences", len(cases))
+    ctx.extra["exhaustive_errors"] = {"cases": len(cases), "classes": len(groups)}
+
+
 def exhaustive_tier(ctx, orc, fixed):
-    node_txt = ['(1 "%s" 1 "%s" ())' % lv for lv in EX_LABELS]
-    lab_of = {lv: i for i, lv in enumerate(EX_LABELS)}
     total = 0
     classes_total = 0
     desc = []
-    for name, n, cfgs in ex_spaces():
+    exhaustive_errors(ctx, orc)
+    for name, n, labels, cfgs in ex_spaces():
+        node_txt = ['(%d "%s" 1 "%s" ())' % lv for lv in labels]
+        lab_of = {lv: i for i, lv in enumerate(labels)}
         cfg_txt = ["(" + " ".join(sx(list(e)) for e in es) + ")" for es in cfgs]
         cfg_idx = {ex_norm(es): i for i, es in enumerate(cfgs)}
         assert len(cfg_idx) == len(cfgs)
@@ -702,7 +923,7 @@ def exhaustive_tier(ctx, orc, fixed):
         ptab = []
         for p in perms:
             ptab.append([cfg_idx[ex_norm([(p[f], p[t], r, ty) for f, t, r, ty in es])] for es in cfgs])
-        labelings = list(itertools.product(range(4), repeat=n))
+        labelings = list(itertools.product(range(len(labels)), repeat=n))
         lab_idx = {l: i for i, l in enumerate(labelings)}
         ltab = []
         for p in perms:
@@ -734,7 +955,7 @@ def exhaustive_tier(ctx, orc, fixed):
 
         def graph_of(gid):
             li, ci = divmod(gid, NC)
-            return ([mk_node(*EX_LABELS[x]) for x in labelings[li]], [list(e) for e in cfgs[ci]], "")
+            return ([mk_node(labels[x][1], labels[x][2], sys=labels[x][0]) for x in labelings[li]], [list(e) for e in cfgs[ci]], "")
 
         def perm_between(rep, gid):
             rl, rc = divmod(rep, NC)
@@ -778,7 +999,7 @@ def exhaustive_tier(ctx, orc, fixed):
                     # preservation: the output is a member of the same class (exact isomorphism test)
                     v = fast_parse(x)
                     try:
-                        oli = lab_idx[tuple(lab_of[(nd[1], nd[3])] for nd in v[1])]
+                        oli = lab_idx[tuple(lab_of[(nd[0], nd[1], nd[3])] for nd in v[1])]
                         oci = cfg_idx[ex_norm([(e[0], e[1], e[2], e[3]) for e in v[2]])]
                         ok = cls[oli * NC + oci] == rep and v[3] == ""
                     except KeyError:
@@ -806,5 +1027,5 @@ def exhaustive_tier(ctx, orc, fixed):
                                  root_dupe=has_root_dupe(h), variant=a)
         ctx.count("exhaustive:idempotence_checked", len(outs))
     ctx.extra["exhaustive_small_scope"] = True
-    ctx.extra["exhaustive_space"] = {"labels": ["%s@%s" % lv for lv in EX_LABELS], "spaces": desc, "graphs": total,
+    ctx.extra["exhaustive_space"] = {"labels": ["%s@%s" % lv[1:] for lv in EX_LABELS], "spaces": desc, "graphs": total,
                                      "isomorphism_classes": classes_total}
